@@ -301,3 +301,51 @@ def verbatim_flow(chk, c, rule):
     nedges += 1
     chk.ob(rule, 'parse_subcomponent stores the text as the leaf value', ok, '', psc.loc, key='%s|leaf' % rule)
     chk.floor('flow edges checked', nedges, 12)
+
+
+def _string_ordered_names(fnode):
+    """calls that order / take the extremum of child names as *strings* (lexicographic: 'X_10' < 'X_9')"""
+    out = []
+    for n in ast.walk(fnode):
+        if isinstance(n, ast.Call) and ((isinstance(n.func, ast.Name) and n.func.id in ('max', 'min', 'sorted')) or
+                                        (isinstance(n.func, ast.Attribute) and n.func.attr == 'sort')):
+            args = list(n.args) + [k.value for k in n.keywords if k.arg != 'key']
+            key = [k.value for k in n.keywords if k.arg == 'key']
+            # a local variable stands for what it was built from
+            expanded = []
+            for a in args:
+                expanded.append(a)
+                if isinstance(a, ast.Name):
+                    for d in ast.walk(fnode):
+                        if isinstance(d, ast.Assign) and any(isinstance(t, ast.Name) and t.id == a.id for t in d.targets):
+                            expanded.append(d.value)
+            text = ' '.join(norm(a) for a in expanded)
+            ktext = ' '.join(norm(k) for k in key)
+            names = ('.name' in text or 'indexes' in text or '.keys()' in text or 'ordered_children' in text)
+            numeric = 'int(' in text or 'int(' in ktext
+            if names and not numeric:
+                out.append(n)
+    return out
+
+
+def no_string_ordering(chk, c, rule):
+    ix = c.index
+    chk.rule(rule, 'positional child names (<X>_<n>) are never ordered or maximised as strings (lexicographic order puts X_10 before X_9)')
+    # positive control: the matcher must recognise the pattern on a synthetic snippet
+    probe = ast.parse("def f(self):\n    last = max(c.name for c in self.children)\n    return sorted(self.children.indexes)")
+    for x in ast.walk(probe):
+        for ch in ast.iter_child_nodes(x):
+            ch._parent = x
+    if len(_string_ordered_names(probe)) != 2:
+        raise AnalysisError('positive control of the string-ordering matcher failed')
+    n = 0
+    for fq in sorted(ix.functions):
+        fi = ix.functions[fq]
+        if fi.module.name not in ('core', 'parser', 'validation'):
+            continue
+        n += 1
+        for call in _string_ordered_names(fi.node):
+            chk.fail(rule, '%s: `%s`' % (fq, norm(call)[:60]),
+                     'child names are compared as strings: positions >= 10 sort before 2..9, so children beyond the ninth are lost '
+                     'or misplaced', '%s:%d' % (fi.module.relpath, call.lineno), key='%s|%s|%s' % (rule, fq, norm(call)[:50]))
+    chk.ok(rule, 'functions of core/parser/validation scanned: %d' % n, '', key='%s|scan' % rule)
